@@ -61,19 +61,51 @@ def validate(ctx, tag, grams, seed, per_rule, events=True, ast="opt", rows=None,
             if r in ("WHITESPACE", "COMMENT"):
                 continue
             acc = [x for x in g.get("inputs", []) if x][:40]
-            for inp in (g["long_inputs"] if "long_inputs" in g else long_inputs(rnd, alpha, acc, per_rule)):
-                jobs.append({"idx": len(jobs), "g": g["id"], "rule": r, "inp": inp, "pre": [], "post": [], "modes": "sE" if events else "s"})
+            for k, inp in enumerate(g["long_inputs"] if "long_inputs" in g else long_inputs(rnd, alpha, acc, per_rule)):
+                pre, post = [], []
+                if k % 3 == 2 and alpha:        # every third call goes through a Span inside a longer string
+                    pre = [rnd.choice(alpha) for _ in range(rnd.randint(0, 3))]
+                    post = [rnd.choice(alpha) for _ in range(rnd.randint(1, 4))]
+                jobs.append({"idx": len(jobs), "g": g["id"], "rule": r, "inp": inp, "pre": pre, "post": post, "modes": "snE" if events else "sn"})
     res = props.run_sharded(bins, shards, jobs)
     recs = []
+    # a parse that does not return is a violation only if the specification says it returns: pest accepts some grammars that
+    # repeat without progress (e.g. (PEEK_ALL)* on an empty stack); the machine reports those runs as "diverged"
+    hung = [j for j in jobs if res.get(j["idx"], {}).get("timeout")]
+    model_diverges = set()
+    if hung:
+        hg = []
+        for gid in sorted({j["g"] for j in hung}):
+            g0 = dict(next(g for g in grams if g["id"] == gid))
+            g0["inputs"] = [j["inp"] for j in hung if j["g"] == gid]
+            g0["ctxs"] = [list(x) for x in {(tuple(j["pre"]), tuple(j["post"])) for j in hung if j["g"] == gid}]
+            g0["ctxs"] = [[list(a), list(b)] for a, b in g0["ctxs"]]
+            g0["maxlen"] = 0
+            g0["alphabet"] = []
+            g0["entries"] = sorted({j["rule"] for j in hung if j["g"] == gid})
+            g0.pop("long_inputs", None)
+            hg.append(g0)
+        hpath, hcorp = peg.make_corpus(hg, tag + "_hung")
+        hrecs, hst = peg.run_tlc(hpath, tag + "_hung", ast=ast)
+        if not hst["ok"]:
+            raise ToolError("TLC failed on the inputs the real parser hung on:\n" + hst.get("tail", "")[-2000:])
+        byg = {c["id"]: c for c in hcorp}
+        for r in hrecs:
+            if r["pc"] != "done":
+                c = byg[r["g"]]["ctxs"][r["ci"] - 1]
+                model_diverges.add((r["g"], r["rule"], tuple(c[0]), tuple(byg[r["g"]]["inputs"][r["ii"] - 1]), tuple(c[1])))
+        ctx.notes["non_returning_parses_predicted_by_the_model"] = ctx.notes.get("non_returning_parses_predicted_by_the_model", 0) + len(model_diverges)
     for j in jobs:
         o = res.get(j["idx"], {})
-        t = o.get("t", {}).get("str")
+        t = o.get("t", {}).get("span" if (j["pre"] or j["post"]) else "str")
+        if o.get("timeout") and (j["g"], j["rule"], tuple(j["pre"]), tuple(j["inp"]), tuple(j["post"])) in model_diverges:
+            continue
         if not t or "panic" in t.get("pp", {}) or "panic" in t.get("ppt", {}) or o.get("timeout") or o.get("crash") is not None:
             ctx.violation("trace recording: the real parser panicked / did not return on %s rule %s input %r" % (j["g"], j["rule"], uncps(j["inp"])),
                           {"kind": "behaviour", "grammar": next(g["text"] for g in grams if g["id"] == j["g"]), "grammar_id": j["g"], "rule": j["rule"], "input": uncps(j["inp"]), "input_cps": j["inp"], "pre": "", "post": "", "observed": o})
             continue
         pp, ppt, pf = t["pp"], t["ppt"], t["pf"]
-        r = {"g": gidx[j["g"]], "rule": j["rule"], "full": j["inp"], "lo": 0, "hi": len(j["inp"]), "ok": pp["ok"], "end": pp.get("end", 0),
+        r = {"g": gidx[j["g"]], "rule": j["rule"], "full": j["pre"] + j["inp"] + j["post"], "lo": len(j["pre"]), "hi": len(j["pre"]) + len(j["inp"]), "ok": pp["ok"], "end": pp.get("end", 0),
              "toks": pp.get("toks", []), "stk": ppt.get("stk", []), "fullok": pf["ok"], "_job": j}
         if events:
             ev = o["t"].get("events", {})
